@@ -476,15 +476,30 @@ def rewrite_method_shims(src, ed, lo, hi, shims, log):
     sig = src.sig
     for i in reversed(range(lo + 1, hi - 1)):   # right to left: the outer call of a chain is inserted first
         t = sig[i]
-        if t.kind == 'id' and t.text in shims and sig[i - 1].text == '.' and sig[i + 1].text == '(':
-            shim, prefix = shims[t.text]
-            a = postfix_chain_start(sig, i - 2, lo)
-            recv_a, recv_b = sig[a].start, sig[i - 2].end
-            o = i + 1
-            empty = sig[o].mate == o + 1
-            ed.insert(recv_a, f'{shim}({prefix}', 'R13')
-            ed.replace(recv_b, sig[o].end, '' if empty else ', ', 'R13')
-            log.append(f'R13 {src.rel}:{src.line_of(t.start)} provided trait method `.{t.text}(..)` routed through {shim}')
+        if not (t.kind == 'id' and t.text in shims and sig[i - 1].text == '.'):
+            continue
+        o = i + 1
+        if sig[o].text == ':' and sig[o + 1].text == ':' and sig[o + 2].text == '<':
+            # turbofish `.m::<T>(..)`: the shim infers its type arguments
+            depth, j = 0, o + 2
+            while True:
+                if sig[j].text == '<':
+                    depth += 1
+                elif sig[j].text == '>' and sig[j - 1].text != '-':
+                    depth -= 1
+                    if depth == 0:
+                        break
+                j += 1
+            o = j + 1
+        if sig[o].text != '(':
+            continue
+        shim, prefix = shims[t.text]
+        a = postfix_chain_start(sig, i - 2, lo)
+        recv_a, recv_b = sig[a].start, sig[i - 2].end
+        empty = sig[o].mate == o + 1
+        ed.insert(recv_a, f'{shim}({prefix}', 'R13')
+        ed.replace(recv_b, sig[o].end, '' if empty else ', ', 'R13')
+        log.append(f'R13 {src.rel}:{src.line_of(t.start)} provided trait method `.{t.text}(..)` routed through {shim}')
 
 
 def find_closures(src, lo, hi):
